@@ -44,6 +44,19 @@ var specialTypes = []reflect.Type{reflect.TypeFor[notRelNamed](), reflect.TypeFo
 
 const lastHuge = 7 // index of the last huge type in specialTypes
 
+// two distinct types whose reflect.Type.String() is the same ("eng.sameName")
+func sameNameA() reflect.Type {
+	type sameName struct{ A int64 }
+	return reflect.TypeFor[sameName]()
+}
+
+func sameNameB() reflect.Type {
+	type sameName struct{ A [4]int64 }
+	return reflect.TypeFor[sameName]()
+}
+
+func init() { specialTypes = append(specialTypes, sameNameA(), sameNameB()) }
+
 const firstHuge = 4 // index of the first huge type in specialTypes
 
 func regType(i int) reflect.Type {
